@@ -1,1 +1,742 @@
-fn main(){}
+//! `bevyck C18|C19 quick|thorough` / `bevyck replay <id> <file>`: the Bevy plugin driven frame by
+//! frame with a hand-set `Time` resource (no TimePlugin), single-threaded executor, a fresh `App` per
+//! case.
+
+use bevy::ecs::event::{Events, ManualEventReader};
+use bevy::prelude::*;
+use bevy_mina::prelude::*;
+use mina::prelude::*;
+use mv_core::desc::{self, Ez, KfDesc, TlDesc, Vals, NPROP, PROP_IS_INT, PROP_NAMES};
+use mv_core::oracle::ModelTl;
+use mv_engine::{Obs, Run};
+use mv_model::{exact32, step32, ulp32, ulps_between, Rep, Timing};
+use proptest::prelude::*;
+use serde::{Deserialize, Serialize};
+use std::time::Duration;
+
+#[derive(Animate, Component, Clone, Debug, Default, PartialEq)]
+pub struct A {
+    #[animate]
+    pub a: f32,
+    #[animate]
+    pub b: f32,
+    #[animate]
+    pub c: i32,
+    #[animate]
+    pub d: u8,
+    pub s: f32,
+    pub z: i32,
+}
+
+#[derive(Animate, Component, Clone, Debug, Default, PartialEq)]
+pub struct B {
+    pub v: f32,
+}
+
+impl A {
+    fn from_vals(v: &Vals) -> A {
+        A { a: v.a, b: v.b, c: v.c, d: v.d, s: 0.25, z: 7 }
+    }
+    fn get(&self, i: usize) -> f64 {
+        match i {
+            0 => self.a as f64,
+            1 => self.b as f64,
+            2 => self.c as f64,
+            _ => self.d as f64,
+        }
+    }
+    fn same(&self, o: &A) -> bool {
+        let f = |x: f32, y: f32| x.to_bits() == y.to_bits() || (x == 0.0 && y == 0.0);
+        f(self.a, o.a) && f(self.b, o.b) && self.c == o.c && self.d == o.d && f(self.s, o.s) && self.z == o.z
+    }
+}
+
+fn build_a(d: &TlDesc) -> ATimeline {
+    let mut b = A::timeline()
+        .duration_seconds(d.timing.cycle)
+        .delay_seconds(d.timing.delay)
+        .repeat(desc::to_repeat(d.timing.repeat))
+        .reverse(d.timing.reverse)
+        .default_easing(d.default_ez.to_mina());
+    for k in &d.kfs {
+        let mut kb = A::keyframe(k.pos);
+        if let Some(v) = k.a {
+            kb = kb.a(v);
+        }
+        if let Some(v) = k.b {
+            kb = kb.b(v);
+        }
+        if let Some(v) = k.c {
+            kb = kb.c(v);
+        }
+        if let Some(v) = k.d {
+            kb = kb.d(v);
+        }
+        if let Some(e) = k.ez {
+            kb = kb.easing(e.to_mina());
+        }
+        b = b.keyframe(kb);
+    }
+    TimelineBuilder::build(b)
+}
+
+#[derive(Clone, Copy, Debug, Default, PartialEq, Eq, Hash)]
+pub enum K {
+    #[default]
+    K0,
+    K1,
+    K2,
+    K3,
+}
+const KEYS: [K; 4] = [K::K0, K::K1, K::K2, K::K3];
+
+/// frame deltas in nanoseconds: 0, 1/512 s, 1/8 s, 1/2 s, 3 s, 100 s (exact), and some arbitrary ones
+const DELTAS_NS: [u64; 11] = [0, 1_953_125, 125_000_000, 500_000_000, 3_000_000_000, 100_000_000_000, 62_500_000, 16_666_667, 1, 33_000_000, 250_000_000];
+
+fn rank(s: AnimationState) -> u8 {
+    match s {
+        AnimationState::None => 0,
+        AnimationState::Waiting => 1,
+        AnimationState::Playing => 2,
+        AnimationState::Ended => 3,
+    }
+}
+
+/// exact seconds of a Duration as f64 (exact for < 2^53 ns when the nanoseconds are a dyadic fraction)
+fn secs(d: Duration) -> f64 {
+    let ns = d.as_nanos();
+    if ns % 1_953_125 == 0 {
+        (ns / 1_953_125) as f64 / 512.0
+    } else {
+        d.as_secs_f64()
+    }
+}
+
+/// f32 candidates for "the position in seconds" (the conversion is the implementation's business)
+fn time_candidates(d: Duration) -> Vec<f32> {
+    let base = d.as_secs_f64() as f32;
+    let mut v = vec![base, d.as_secs_f32()];
+    for k in [-2, -1, 1, 2] {
+        v.push(step32(base, k));
+    }
+    v.dedup();
+    v
+}
+
+struct World1 {
+    app: App,
+    entity: Entity,
+    now: std::time::Instant,
+    reader: ManualEventReader<AnimationStateChanged>,
+}
+
+impl World1 {
+    fn new(app: App, entity: Entity) -> Self {
+        let mut app = app;
+        let startup = app.world.resource::<Time>().startup();
+        app.world.resource_mut::<Time>().update_with_instant(startup);
+        World1 { app, entity, now: startup, reader: ManualEventReader::default() }
+    }
+    fn frame(&mut self, delta_ns: u64) -> Vec<(Entity, AnimationState)> {
+        self.now += Duration::from_nanos(delta_ns);
+        let now = self.now;
+        self.app.world.resource_mut::<Time>().update_with_instant(now);
+        self.app.update();
+        let events = self.app.world.resource::<Events<AnimationStateChanged>>();
+        self.reader.iter(events).map(|e| (e.entity, e.state)).collect()
+    }
+    fn animator_a(&self) -> (AnimationState, Duration, bool) {
+        let a = self.app.world.get::<Animator<A>>(self.entity).unwrap();
+        (a.state(), a.timeline_position, a.enabled)
+    }
+    fn comp(&self) -> A {
+        self.app.world.get::<A>(self.entity).unwrap().clone()
+    }
+}
+
+// =============================================================================================
+// The per-frame animator rule shared by C18 and C19 ("predict the allowed outcomes, check the
+// observation is one of them, continue from the observation").
+
+struct TlInForce {
+    desc: TlDesc,
+    twin: ATimeline,
+    model: ModelTl,
+    /// values substituted by start_with (selector blends), None for a plain timeline
+    start: Option<A>,
+}
+
+impl TlInForce {
+    fn new(desc: &TlDesc, start: Option<&A>) -> Self {
+        let mut twin = build_a(desc);
+        if let Some(s) = start {
+            twin.start_with(s);
+        }
+        TlInForce { desc: desc.clone(), twin, model: ModelTl::new(desc), start: start.cloned() }
+    }
+}
+
+#[derive(Default)]
+struct FrameFacts {
+    entered_ended: bool,
+    skipped_phase: bool,
+    exact_end_decision: bool,
+    near_band: bool,
+    playing_eval: bool,
+}
+
+/// Judges one frame of an enabled/disabled animator. `st0,pos0,comp0` before the frame (after user
+/// operations), `st1,pos1,comp1` after it. Returns facts for labels.
+#[allow(clippy::too_many_arguments)]
+fn judge_animator_frame(tl: Option<&TlInForce>, enabled: bool, delta: Duration, st0: AnimationState, pos0: Duration, comp0: &A, st1: AnimationState, pos1: Duration, comp1: &A) -> Result<FrameFacts, String> {
+    let mut facts = FrameFacts::default();
+    if !enabled {
+        if st1 != st0 || pos1 != pos0 || !comp1.same(comp0) {
+            return Err(format!("disabled animator changed: state {:?}->{:?}, position {:?}->{:?}, component {:?}->{:?}", st0, st1, pos0, pos1, comp0, comp1));
+        }
+        return Ok(facts);
+    }
+    let Some(tl) = tl else {
+        if st1 != AnimationState::None || pos1 != pos0 || !comp1.same(comp0) {
+            return Err(format!("animator without timeline: state {:?}->{:?} (expected None), position {:?}->{:?}, component changed: {}", st0, st1, pos0, pos1, !comp1.same(comp0)));
+        }
+        return Ok(facts);
+    };
+    let tm = tl.desc.timing;
+    let s0 = secs(pos0);
+    let total = tm.total();
+    let delay = tm.delay as f64;
+    let pos_exact = pos0.as_nanos() % 1_953_125 == 0 && exact32(s0);
+    let decide = |limit: f64, limit_exact: bool| -> (bool, bool) {
+        // (reached, ambiguous)
+        if limit.is_infinite() {
+            return (false, false);
+        }
+        if pos_exact && limit_exact {
+            return (s0 >= limit, false);
+        }
+        let band = 2.0 * (ulp32(limit as f32) as f64 + ulp32(s0 as f32) as f64) + 2e-9;
+        if (s0 - limit).abs() <= band {
+            (s0 >= limit, true)
+        } else {
+            (s0 >= limit, false)
+        }
+    };
+    let total_exact = exact32(total) && exact32(tm.cycle as f64 * tm.repeat.cycles().unwrap_or(1) as f64);
+    let (ended, ended_amb) = decide(total, total_exact);
+    let (started, started_amb) = if st0 == AnimationState::Playing {
+        // states only move forward: a Playing animator stays Playing (e.g. after set_timeline
+        // installed a timeline with a longer delay) until it ends
+        (true, false)
+    } else {
+        decide(delay, true)
+    };
+    facts.exact_end_decision = pos_exact && total_exact && total.is_finite();
+    facts.near_band = ended_amb || started_amb;
+    // allowed resulting states
+    let mut allowed: Vec<AnimationState> = vec![];
+    if st0 == AnimationState::Ended {
+        allowed.push(AnimationState::Ended);
+    } else {
+        let mut add = |e: bool, s: bool| {
+            let st = if e {
+                AnimationState::Ended
+            } else if s {
+                AnimationState::Playing
+            } else {
+                AnimationState::Waiting
+            };
+            if !allowed.contains(&st) {
+                allowed.push(st);
+            }
+        };
+        add(ended, started);
+        if ended_amb {
+            add(!ended, started);
+        }
+        if started_amb {
+            add(ended, !started);
+        }
+    }
+    if !allowed.contains(&st1) {
+        return Err(format!(
+            "state after the frame is {:?}; with position {:?} ({s0} s) at the start of the frame, delay {delay} s and total duration {total} s the state must be {:?} (state before: {:?})",
+            st1, pos0, allowed, st0
+        ));
+    }
+    // (an animator that ended under a previous timeline keeps reporting Ended after set_timeline:
+    // that is documented; only a *newly* reported end is judged against the installed timeline)
+    if total.is_infinite() && st1 == AnimationState::Ended && st0 != AnimationState::Ended {
+        return Err("Ended reported for an infinitely repeating timeline".into());
+    }
+    if rank(st1) < rank(st0) {
+        return Err(format!("state moved backwards {:?} -> {:?} without a reset", st0, st1));
+    }
+    // time conservation
+    let want_pos = if st1 == AnimationState::Ended { pos0 } else { pos0 + delta };
+    if pos1 != want_pos {
+        return Err(format!("timeline_position {:?} -> {:?} in a frame of {:?} ending in state {:?}: expected {:?}", pos0, pos1, delta, st1, want_pos));
+    }
+    // component
+    let eval_matches = |c1: &A| -> bool {
+        for t in time_candidates(pos0) {
+            let mut v = comp0.clone();
+            tl.twin.update(&mut v, t);
+            if v.same(c1) {
+                return true;
+            }
+        }
+        false
+    };
+    let entered_ended = st1 == AnimationState::Ended && st0 != AnimationState::Ended;
+    facts.entered_ended = entered_ended;
+    facts.skipped_phase = (st0 == AnimationState::Waiting || st0 == AnimationState::None) && st1 == AnimationState::Ended;
+    if st0 == AnimationState::Ended {
+        if !comp1.same(comp0) {
+            return Err(format!("component changed although the animator had already ended: {:?} -> {:?}", comp0, comp1));
+        }
+    } else if st0 == AnimationState::Playing || entered_ended {
+        facts.playing_eval = st0 == AnimationState::Playing;
+        if !eval_matches(comp1) {
+            let mut v = comp0.clone();
+            tl.twin.update(&mut v, pos0.as_secs_f64() as f32);
+            return Err(format!(
+                "state {:?} -> {:?} with position {:?} at the start of the frame: component is {:?} but the timeline evaluated at that position gives {:?} (component before the frame {:?})",
+                st0, st1, pos0, comp1, v, comp0
+            ));
+        }
+    } else if !comp1.same(comp0) && !eval_matches(comp1) {
+        return Err(format!("state {:?} -> {:?}: component changed to {:?}, which is neither its previous value {:?} nor the timeline at the frame's start position {:?}", st0, st1, comp1, comp0, pos0));
+    }
+    // terminal values when Ended is (newly) reported: model values, exact domain
+    if entered_ended && !ended_amb {
+        for i in 0..NPROP {
+            if let Some(want) = tl.model.terminal(i) {
+                // a start_with value can only be terminal for ... nothing: terminal is 100 % or original 0 %
+                let got = comp1.get(i);
+                let ok = if PROP_IS_INT[i] { got == want } else { got as f32 == want as f32 || ulps_between(got as f32, want as f32) <= 2 };
+                if !ok {
+                    return Err(format!("Ended reported but property {} = {got}, the timeline's terminal value is {want}", PROP_NAMES[i]));
+                }
+            }
+        }
+        let _ = &tl.start;
+    }
+    Ok(facts)
+}
+
+// =============================================================================================
+// C18
+
+#[derive(Clone, Copy, Debug, PartialEq, Serialize, Deserialize)]
+pub enum BOp {
+    Frame(u8),
+    Enable,
+    Disable,
+    Reset,
+    /// install the main (false) or the other (true) timeline
+    SetTimeline(bool),
+}
+
+#[derive(Clone, Debug, Serialize, Deserialize)]
+pub struct C18Case {
+    pub tl: TlDesc,
+    pub other: TlDesc,
+    pub with_timeline: bool,
+    pub start_disabled: bool,
+    pub start: Vals,
+    pub ops: Vec<BOp>,
+}
+
+fn bevy_timing_strategy() -> impl Strategy<Value = Timing> {
+    let rep = prop_oneof![5 => Just(Rep::None), 3 => (0u32..=2).prop_map(Rep::Times), 2 => Just(Rep::Infinite)];
+    let dy = (rep.clone(), any::<bool>(), prop::sample::select(vec![0.25f32, 0.5, 1.0, 1.5, 2.0, 3.0, 6.0, 0.125, 0.5625]), prop_oneof![3 => Just(0.0f32), 3 => prop::sample::select(vec![0.125f32, 0.5, 2.0, 3.0, 150.0])])
+        .prop_map(|(repeat, reverse, cycle, delay)| Timing { cycle, delay, repeat, reverse });
+    let arb = (rep, any::<bool>(), prop::sample::select(vec![0.1f32, 0.3, 0.7, 1.1]), prop::sample::select(vec![0.0f32, 0.1, 0.3])).prop_map(|(repeat, reverse, cycle, delay)| Timing { cycle, delay, repeat, reverse });
+    prop_oneof![4 => dy, 1 => arb]
+}
+
+fn frame_sel() -> impl Strategy<Value = u8> {
+    prop_oneof![7 => 0u8..7, 2 => 7u8..11]
+}
+
+fn c18_strategy() -> impl Strategy<Value = C18Case> {
+    let op = prop_oneof![
+        12 => frame_sel().prop_map(BOp::Frame),
+        1 => Just(BOp::Enable),
+        1 => Just(BOp::Disable),
+        1 => Just(BOp::Reset),
+        1 => any::<bool>().prop_map(BOp::SetTimeline),
+    ];
+    (
+        desc::tl_strategy_animator(bevy_timing_strategy()),
+        desc::tl_strategy_animator(bevy_timing_strategy()),
+        prop::bool::weighted(0.9),
+        prop::bool::weighted(0.1),
+        desc::vals_strategy(),
+        prop::collection::vec(op, 1..=40),
+    )
+        .prop_map(|(tl, other, with_timeline, start_disabled, start, ops)| C18Case { tl, other, with_timeline, start_disabled, start, ops })
+}
+
+const C18_LABELS: [&str; 12] = ["reached_ended", "frame_skipped_a_phase", "zero_frame", "disabled_frames", "reset_used", "set_timeline_used", "infinite", "exact_end_decision", "near_band", "playing_evaluated", "delayed", "no_timeline_start"];
+
+fn c18_judge(c: &C18Case, obs: &mut Obs) -> Result<(), String> {
+    let mut app = App::new();
+    app.add_plugins(AnimationPlugin::<A>::new());
+    app.insert_resource(Time::default());
+    let start = A::from_vals(&c.start);
+    let mut animator = if c.with_timeline { Animator::with_timeline(build_a(&c.tl)) } else { Animator::new() };
+    if c.start_disabled {
+        animator = animator.as_disabled();
+    }
+    let entity = app.world.spawn((start.clone(), animator)).id();
+    let mut w = World1::new(app, entity);
+    let mut cur: Option<TlInForce> = if c.with_timeline { Some(TlInForce::new(&c.tl, None)) } else { None };
+    obs.label_if(11, !c.with_timeline);
+    obs.label_if(6, c.tl.timing.repeat == Rep::Infinite);
+    obs.label_if(10, c.tl.timing.delay > 0.0);
+    let mut ended_events_since_reset = 0u32;
+    for (n, op) in c.ops.iter().enumerate() {
+        match *op {
+            BOp::Enable => w.app.world.get_mut::<Animator<A>>(entity).unwrap().enabled = true,
+            BOp::Disable => w.app.world.get_mut::<Animator<A>>(entity).unwrap().enabled = false,
+            BOp::Reset => {
+                w.app.world.get_mut::<Animator<A>>(entity).unwrap().reset();
+                ended_events_since_reset = 0;
+                obs.label(4);
+            }
+            BOp::SetTimeline(other) => {
+                let d = if other { &c.other } else { &c.tl };
+                w.app.world.get_mut::<Animator<A>>(entity).unwrap().set_timeline(build_a(d));
+                cur = Some(TlInForce::new(d, None));
+                obs.label(5);
+            }
+            BOp::Frame(sel) => {
+                let dns = DELTAS_NS[sel as usize % DELTAS_NS.len()];
+                let delta = Duration::from_nanos(dns);
+                obs.label_if(2, dns == 0);
+                let (st0, pos0, en0) = w.animator_a();
+                let comp0 = w.comp();
+                let events = w.frame(dns);
+                let (st1, pos1, _) = w.animator_a();
+                let comp1 = w.comp();
+                obs.label_if(3, !en0);
+                let facts = judge_animator_frame(cur.as_ref(), en0, delta, st0, pos0, &comp0, st1, pos1, &comp1).map_err(|e| format!("op {n} frame({dns} ns): {e}"))?;
+                // events: exactly one iff the state changed, carrying the state at the end of the frame
+                let want_events: Vec<(Entity, AnimationState)> = if st1 != st0 { vec![(entity, st1)] } else { vec![] };
+                if events != want_events {
+                    return Err(format!("op {n} frame({dns} ns): state {:?} -> {:?} but events {:?} (expected {:?})", st0, st1, events, want_events));
+                }
+                if st1 == AnimationState::Ended && st0 != AnimationState::Ended {
+                    ended_events_since_reset += 1;
+                    if ended_events_since_reset > 1 {
+                        return Err(format!("op {n}: more than one Ended event in one run"));
+                    }
+                    obs.label(0);
+                }
+                obs.label_if(1, facts.skipped_phase);
+                obs.label_if(7, facts.exact_end_decision);
+                obs.label_if(8, facts.near_band);
+                obs.label_if(9, facts.playing_eval);
+                obs.judged += 1;
+            }
+        }
+    }
+    let l = obs.labels;
+    obs.nontrivial = l & 1 != 0 && (l & 2 != 0 || l & 4 != 0);
+    Ok(())
+}
+
+fn c18(run: &mut Run) {
+    run.assume("single-threaded executor, one App per case, Time advanced by hand (no TimePlugin); exact domain for the Ended/Waiting decisions when the position is a multiple of 2^-9 s representable in f32 and the total duration is representable, a band of 2(ulp(limit)+ulp(pos)) otherwise");
+    run.assume("in a frame that the animator does not enter as Playing and does not end, the component may either stay as it is or be evaluated at the frame's start position (the property does not say)");
+    let cases = run.tier.pick(20_000, 2_000_000);
+    run.prop(
+        "c18_schedule",
+        "proptest: timeline timing (delay 0/>0 incl. longer than any frame, repeat none/n/infinite, reverse) x start value x schedule <=40 of Frame(0, 1/512, 1/8, 1/2, 3, 100 s, 16.67 ms, 1 ns, ...)/Enable/Disable/Reset/SetTimeline in a fresh Bevy App; per-frame oracle: allowed states from the position at frame start, time conservation, component == timeline(pos0) when Playing or newly Ended (terminal values), disabled = frozen, exactly one event per state change carrying the final state; non-trivial = reaches Ended and has a phase-skipping or zero-length frame",
+        &C18_LABELS,
+        c18_strategy(),
+        cases,
+        c18_judge,
+    );
+    for (l, f) in [("reached_ended", 0.3), ("frame_skipped_a_phase", 0.05), ("zero_frame", 0.5), ("disabled_frames", 0.1), ("reset_used", 0.2), ("infinite", 0.1), ("exact_end_decision", 0.3), ("playing_evaluated", 0.5)] {
+        run.require_label("c18_schedule", l, f);
+    }
+}
+
+// =============================================================================================
+// C19
+
+#[derive(Clone, Copy, Debug, PartialEq, Serialize, Deserialize)]
+pub enum SOp {
+    Frame(u8),
+    SetKey(u8),
+}
+
+#[derive(Clone, Debug, Serialize, Deserialize)]
+pub struct C19Case {
+    pub tls: Vec<TlDesc>,
+    pub initial_key: u8,
+    /// chain entries (from, to), None = no AnimationChain component
+    pub chain: Option<Vec<(u8, u8)>>,
+    /// second animated component type B with its own Animator<B> (duration in 1/8 s units)
+    pub with_b: Option<u8>,
+    pub start: Vals,
+    pub ops: Vec<SOp>,
+}
+
+fn c19_strategy() -> impl Strategy<Value = C19Case> {
+    let finite_timing = (prop::sample::select(vec![0.25f32, 0.5, 1.0, 1.5, 3.0]), prop_oneof![3 => Just(0.0f32), 1 => prop::sample::select(vec![0.125f32, 0.5])], prop_oneof![4 => Just(Rep::None), 1 => Just(Rep::Times(1)), 1 => Just(Rep::Infinite)], any::<bool>())
+        .prop_map(|(cycle, delay, repeat, reverse)| Timing { cycle, delay, repeat, reverse });
+    let op = prop_oneof![
+        10 => prop_oneof![6 => 0u8..5, 1 => 5u8..11].prop_map(SOp::Frame),
+        3 => (0u8..4).prop_map(SOp::SetKey),
+    ];
+    let chain = prop::option::weighted(0.7, prop::collection::vec((0u8..4, 0u8..4), 0..=3).prop_map(|v| v.into_iter().filter(|(a, b)| a != b).collect::<Vec<_>>()));
+    (
+        prop::collection::vec(desc::tl_strategy_animator(finite_timing), 3),
+        0u8..4,
+        chain,
+        prop::option::weighted(0.4, 1u8..24),
+        desc::vals_strategy(),
+        prop::collection::vec(op, 1..=40),
+    )
+        .prop_map(|(tls, initial_key, chain, with_b, start, ops)| C19Case { tls, initial_key, chain, with_b, start, ops })
+}
+
+const C19_LABELS: [&str; 12] = ["key_change_mid_flight", "chain_fired", "end_without_chain_entry", "other_animator_ended", "key_set_in_gap_after_end", "same_key_reassigned", "key_without_timeline", "has_chain", "two_component_types", "chain_first_order_consistent", "select_first_order_consistent", "ended_reached"];
+
+/// One hypothesis about the (unspecified but fixed) relative order of chain_animations / select_animation.
+struct Hyp {
+    chain_first: bool,
+    alive: bool,
+    why_dead: String,
+    acted_key: Option<u8>,
+    tl: Option<TlInForce>,
+}
+
+fn c19_judge(c: &C19Case, obs: &mut Obs) -> Result<(), String> {
+    let mut app = App::new();
+    app.add_plugins(AnimationPlugin::<A>::new());
+    if c.with_b.is_some() {
+        app.add_plugins(AnimationPlugin::<B>::new());
+    }
+    app.register_animation_key::<A, K>();
+    app.insert_resource(Time::default());
+    let start = A::from_vals(&c.start);
+    let mut sb = AnimationSelectorBuilder::<K, A>::new().initial_key(KEYS[c.initial_key as usize % 4]);
+    for (i, t) in c.tls.iter().enumerate().take(3) {
+        sb = sb.add(KEYS[i], build_a(t));
+    }
+    let mut chain_map = std::collections::HashMap::new();
+    let mut ec = app.world.spawn((start.clone(), Animator::<A>::new(), sb.build()));
+    if let Some(ch) = &c.chain {
+        let mut cb = AnimationChainBuilder::<K>::new();
+        for (f, t) in ch {
+            cb = cb.add(KEYS[*f as usize % 4], KEYS[*t as usize % 4]);
+            chain_map.insert(*f % 4, *t % 4);
+        }
+        ec.insert(cb.build());
+        obs.label(7);
+    }
+    if let Some(units) = c.with_b {
+        let btl = TimelineBuilder::build(B::timeline().duration_seconds(units as f32 / 8.0).keyframe(B::keyframe(0.0).v(0.0)).keyframe(B::keyframe(1.0).v(1.0)));
+        ec.insert((B { v: 0.0 }, Animator::<B>::with_timeline(btl)));
+        obs.label(8);
+    }
+    let entity = ec.id();
+    let mut w = World1::new(app, entity);
+    let mk = |chain_first: bool| Hyp { chain_first, alive: true, why_dead: String::new(), acted_key: None, tl: None };
+    let mut hyps = vec![mk(true), mk(false)];
+    let mut key: u8 = c.initial_key % 4; // the key as the schedule last set it / as the frames left it
+    let mut a_ended_last_frame = false;
+    let mut b_ended_last_frame = false;
+    let mut set_since_frame = false;
+    for (n, op) in c.ops.iter().enumerate() {
+        match *op {
+            SOp::SetKey(k) => {
+                let k = k % 4;
+                let (st, _, _) = w.animator_a();
+                if k == key {
+                    obs.label(5);
+                } else if st == AnimationState::Playing || st == AnimationState::Waiting {
+                    obs.label(0);
+                }
+                if a_ended_last_frame && k != key {
+                    obs.label(4);
+                }
+                w.app.world.get_mut::<AnimationSelector<K, A>>(entity).unwrap().timeline_key = KEYS[k as usize];
+                key = k;
+                set_since_frame = true;
+                obs.label_if(6, k == 3);
+            }
+            SOp::Frame(sel) => {
+                let dns = DELTAS_NS[sel as usize % DELTAS_NS.len()];
+                let delta = Duration::from_nanos(dns);
+                let (st0, pos0, en0) = w.animator_a();
+                let comp0 = w.comp();
+                let b0 = c.with_b.map(|_| w.app.world.get::<Animator<B>>(entity).unwrap().state());
+                let events = w.frame(dns);
+                let (st1, pos1, _) = w.animator_a();
+                let comp1 = w.comp();
+                let b1 = c.with_b.map(|_| w.app.world.get::<Animator<B>>(entity).unwrap().state());
+                let key1 = KEYS.iter().position(|k| *k == w.app.world.get::<AnimationSelector<K, A>>(entity).unwrap().timeline_key).unwrap() as u8;
+                let mut any_alive = false;
+                let mut key_after_model = key;
+                for h in hyps.iter_mut().filter(|h| h.alive) {
+                    // --- predict under this hypothesis
+                    let mut mkey = key;
+                    let mut acted = h.acted_key;
+                    let mut restart: Option<u8> = None;
+                    let chain_step = |mkey: &mut u8, acted: &Option<u8>| {
+                        // the chain fires only if OUR animator ended in the previous frame, while the
+                        // key is still the one the selector acted on, and the chain has an entry for it
+                        if a_ended_last_frame && st0 == AnimationState::Ended && *acted == Some(*mkey) {
+                            if let Some(next) = chain_map.get(mkey) {
+                                *mkey = *next;
+                                return true;
+                            }
+                        }
+                        false
+                    };
+                    let mut fired = false;
+                    let select_step = |mkey: &u8, acted: &mut Option<u8>, restart: &mut Option<u8>| {
+                        if *acted != Some(*mkey) {
+                            *acted = Some(*mkey);
+                            *restart = Some(*mkey);
+                        }
+                    };
+                    if h.chain_first {
+                        fired |= chain_step(&mut mkey, &acted);
+                        select_step(&mkey, &mut acted, &mut restart);
+                    } else {
+                        select_step(&mkey, &mut acted, &mut restart);
+                        fired |= chain_step(&mut mkey, &acted);
+                    }
+                    // animator as seen by `animate` in this frame
+                    let (tl_now, st_in, pos_in): (Option<TlInForce>, AnimationState, Duration) = match restart {
+                        Some(k) => {
+                            let t = if (k as usize) < 3 { Some(TlInForce::new(&c.tls[k as usize], Some(&comp0))) } else { None };
+                            (t, AnimationState::None, Duration::ZERO)
+                        }
+                        None => (None, st0, pos0),
+                    };
+                    let tl_ref = if restart.is_some() { tl_now.as_ref() } else { h.tl.as_ref() };
+                    let res = (|| -> Result<(), String> {
+                        if key1 != mkey {
+                            return Err(format!("selector key after the frame is {:?} but should be {:?} (key before the frame {:?}, our animator ended last frame: {a_ended_last_frame}, another animator ended last frame: {b_ended_last_frame}, chain {:?})", KEYS[key1 as usize], KEYS[mkey as usize], KEYS[key as usize], c.chain));
+                        }
+                        if restart.is_some() && tl_ref.is_none() {
+                            // key without timeline: animation stops, component left alone
+                            if st1 != AnimationState::None || pos1 != Duration::ZERO || !comp1.same(&comp0) {
+                                return Err(format!("key {:?} has no timeline: expected the animator to stop (state None, position 0, component untouched) but got state {:?}, position {:?}, component {:?} -> {:?}", KEYS[mkey as usize], st1, pos1, comp0, comp1));
+                            }
+                            return Ok(());
+                        }
+                        if restart.is_some() && !comp1.same(&comp0) {
+                            // blended from the current values: the component must not jump in the frame of the key change
+                            // (evaluation at position 0 of the blended timeline gives the same values, so any
+                            // difference is a jump)
+                            let mut v = comp0.clone();
+                            tl_ref.unwrap().twin.update(&mut v, 0.0);
+                            if !v.same(&comp1) {
+                                return Err(format!("component jumped in the frame of the key change to {:?}: {:?} -> {:?}", KEYS[mkey as usize], comp0, comp1));
+                            }
+                        }
+                        judge_animator_frame(tl_ref, en0, delta, st_in, pos_in, &comp0, st1, pos1, &comp1).map(|_| ())?;
+                        // events: one per animator state change on this entity (a restart resets our
+                        // animator to None first, so Playing -> restart -> Playing is a change)
+                        let want = (st1 != st_in) as usize + (b0 != b1) as usize;
+                        if events.len() != want {
+                            return Err(format!("{} events for {} animator state changes ({:?})", events.len(), want, events));
+                        }
+                        if st1 != st_in && !events.iter().any(|(e, s)| *e == entity && *s == st1) {
+                            return Err(format!("state changed to {:?} but no event carries it ({:?})", st1, events));
+                        }
+                        Ok(())
+                    })();
+                    match res {
+                        Ok(()) => {
+                            any_alive = true;
+                            h.acted_key = acted;
+                            if restart.is_some() {
+                                h.tl = tl_now;
+                            }
+                            key_after_model = mkey;
+                            if fired {
+                                obs.label(1);
+                            }
+                        }
+                        Err(e) => {
+                            h.alive = false;
+                            h.why_dead = format!("op {n} frame({dns} ns): {e}");
+                        }
+                    }
+                }
+                if !any_alive {
+                    return Err(format!(
+                        "no order of chain_animations/select_animation explains the observations. If chain runs first: {} || if select runs first: {}",
+                        hyps[0].why_dead, hyps[1].why_dead
+                    ));
+                }
+                let a_ended_now = st1 == AnimationState::Ended && st0 != AnimationState::Ended;
+                let b_ended_now = b1 == Some(AnimationState::Ended) && b0 != Some(AnimationState::Ended);
+                if a_ended_now {
+                    obs.label(11);
+                    if !chain_map.contains_key(&key1) {
+                        obs.label(2);
+                    }
+                }
+                obs.label_if(3, b_ended_now);
+                a_ended_last_frame = a_ended_now;
+                b_ended_last_frame = b_ended_now;
+                key = key_after_model;
+                set_since_frame = false;
+                obs.judged += 1;
+            }
+        }
+    }
+    let _ = set_since_frame;
+    obs.label_if(9, hyps[0].alive);
+    obs.label_if(10, hyps[1].alive);
+    let l = obs.labels;
+    obs.nontrivial = l & 1 != 0 && (c.chain.is_none() || (l & 2 != 0));
+    Ok(())
+}
+
+fn c19(run: &mut Run) {
+    run.assume("the relative order of chain_animations and select_animation is unspecified but fixed per App: the model is run under both orders and a violation is reported only when neither explains the observations");
+    run.assume("self-loop chain entries k->k are not generated (the statement speaks of moving to another key)");
+    let cases = run.tier.pick(20_000, 2_000_000);
+    run.prop(
+        "c19_selector_chain",
+        "proptest: 3 keyed timelines + 1 key without timeline, optional chain (0-3 entries, cycles allowed), optional second component type B with its own animator, schedule <=40 of Frame(delta)/SetKey (incl. re-assigning the current key and assignments right after an end); oracle: key after every frame per the chain rule, restart blended from the current values without a jump, no-timeline key stops animation, then the C18 per-frame animator rule; non-trivial = key change mid-flight and (for chain cases) a chain firing",
+        &C19_LABELS,
+        c19_strategy(),
+        cases,
+        c19_judge,
+    );
+    for (l, f) in [("key_change_mid_flight", 0.3), ("chain_fired", 0.05), ("end_without_chain_entry", 0.05), ("other_animator_ended", 0.05), ("key_set_in_gap_after_end", 0.02), ("same_key_reassigned", 0.2), ("key_without_timeline", 0.2)] {
+        run.require_label("c19_selector_chain", l, f);
+    }
+}
+
+fn main() {
+    let args: Vec<String> = std::env::args().skip(1).collect();
+    let Some(mut run) = Run::from_args(&args) else {
+        eprintln!("usage: bevyck <C18|C19> [quick|thorough] | bevyck replay <Cnn> <file>");
+        std::process::exit(2);
+    };
+    mv_engine::quiet_panics();
+    let _ = (Ez::Linear, KfDesc { pos: 0.0, a: None, b: None, c: None, d: None, ez: None });
+    match run.id.as_str() {
+        "C18" => c18(&mut run),
+        "C19" => c19(&mut run),
+        other => {
+            eprintln!("unknown property {other}");
+            std::process::exit(2);
+        }
+    }
+    std::process::exit(run.finish());
+}
